@@ -271,6 +271,34 @@ def r20_5b(ck, F):
         raise mir.AnchorMissing("MaybeDone::take_output in lazy / lazy_blob")
 
 
+def r20_6(ck, F):
+    ck.rule("R20.6", "the blob provider serves its consumers independently: in the request loop of LazyBlob::provided the only "
+            "suspension point is the wait for the next fetch request; connecting to the requester and transmitting the data "
+            "happen in a task spawned per request",
+            "two endpoints fetch the same blob and the first requester's link stalls (flow control): the provider loop is "
+            "stuck inside that transfer, the second endpoint's fetch never gets its data and never gets an error; dropping "
+            "the provider also cuts a transfer that is already running", floor=1)
+    fam = [b for k, b in F.bodies.items() if k.startswith("robj::lazy_blob::LazyBlob") and "::provided::" in k and b.kind == "coroutine"]
+    loop_body = None
+    for b in fam:
+        recvs = [a for a in b.awaits() if (a.get("fut_fn") or "").endswith("mpsc::receiver::Receiver::recv::{closure#0}") or
+                 "mpsc::receiver::Receiver" in (a.get("fut_fn") or "") and "recv" in (a.get("fut_fn") or "")]
+        heads = [h for _, h in b.back_edges()]
+        if recvs and any(recvs[0]["poll_bb"] in b.loop_blocks(h) for h in heads):
+            loop_body = (b, recvs[0], [h for h in heads if recvs[0]["poll_bb"] in b.loop_blocks(h)])
+    if loop_body is None:
+        raise mir.AnchorMissing("request loop of LazyBlob::provided (a coroutine awaiting the request receiver inside a loop)")
+    b, rq, heads = loop_body
+    blocks = set().union(*[b.loop_blocks(h) for h in heads])
+    other = [a for a in b.awaits() if a["poll_bb"] in blocks and a["poll_bb"] != rq["poll_bb"]]
+    spawns = [bb for bb, t in b.calls() if (callee(t) or "").endswith("::spawn") and bb in blocks]
+    ck.expect(not other and bool(spawns), "LazyBlob::provided#serve-in-own-task",
+              "the request loop only awaits the next request; the transfer is spawned",
+              "the request loop of LazyBlob::provided awaits " +
+              (f"{(other[0].get('fut_fn') or other[0].get('fut_ty') or '')[:80]} (line {other[0]['line']})" if other else "nothing else but spawns no task")
+              + ": one stalled consumer blocks every other consumer of the blob", b.loc(rq["poll_bb"]))
+
+
 def run(ck, F):
-    for r in (r20_1, r20_2, r20_3, r20_4, r20_4b, r20_5, r20_5b):
+    for r in (r20_1, r20_2, r20_3, r20_4, r20_4b, r20_5, r20_5b, r20_6):
         ck.run_rule(r)
